@@ -944,6 +944,11 @@ func (rn *runner) evalBatch(b *Batch, withAlone bool, sched []int) ([]finding, *
 				break
 			}
 		}
+		// testscript's own failNow panic (ts.Fatalf, ts.Check) never leaves RunT: under testing.T the test
+		// binary would die of it, the sibling scripts be abandoned with their processes and the root
+		if o.Panic == "fail now!" {
+			add("impl-violation", "panic/failnow-escaped", fmt.Sprintf("script %s: the internal \"fail now!\" panic of ts.Fatalf / ts.Check left RunT through the subtest function (a deferred function of the script ends with ts.Fatalf): under testing.T it kills the test binary", o.Name), "FAIL", "PANIC: "+o.Panic)
+		}
 		if len(o.AliveAtEnd) > 0 {
 			add("impl-violation", "process-left/at-script-end", fmt.Sprintf("script %s (%s): when its subtest function returned, background commands it had started were still running and had not been waited for: %s", o.Name, o.Verdict, strings.Join(o.AliveAtEnd, ", ")), "", strings.Join(o.AliveAtEnd, ","))
 		}
